@@ -134,7 +134,13 @@ func (fx *FX) computeLabels() {
 		return ls.val[v]
 	}
 	changed := true
+	errT := types.Universe.Lookup("error").Type()
 	set := func(v ssa.Value, l label) {
+		// values of type error are clean: every construction of an error text in the unit carries its own
+		// taint:error obligation, and library errors are assumed not to embed caller secrets
+		if v != nil && types.Identical(v.Type(), errT) {
+			return
+		}
 		l = l.join(label{})
 		if ls.val[v] != ls.val[v].join(l) {
 			ls.val[v] = ls.val[v].join(l)
